@@ -154,7 +154,7 @@ where
 {
     quiet_panics();
     let args = parse_args();
-    let mut out: Box<dyn Write> = match &args.out {
+    let out: Box<dyn Write + Send> = match &args.out {
         Some(p) => Box::new(std::io::BufWriter::new(std::fs::File::create(p).expect("cannot create out file"))),
         None => Box::new(std::io::BufWriter::new(std::io::stdout())),
     };
@@ -181,17 +181,47 @@ where
         inputs.extend(gen_cases(&mut rng, args.tier));
     }
 
+    // watchdog: a case that does not finish within the limit (non-termination of the real code) is written with
+    // `impl.panic`, the output is flushed and the process ends - the cases after it are not run, the one that hangs is the
+    // replay. Cases run on the main thread as before; the limit is far above what any case needs (seconds)
+    let limit = std::env::var("VERIF_CASE_TIMEOUT_S").ok().and_then(|v| v.parse::<u64>().ok()).unwrap_or(900);
+    let out = std::sync::Arc::new(std::sync::Mutex::new(out));
+    let current: std::sync::Arc<std::sync::Mutex<Option<(std::time::Instant, Value)>>> = Default::default();
+    {
+        let (out, current) = (out.clone(), current.clone());
+        std::thread::spawn(move || {
+            loop {
+                std::thread::sleep(std::time::Duration::from_millis(500));
+                let overdue = current.lock().unwrap().as_ref().filter(|(t, _)| t.elapsed().as_secs() >= limit).map(|(_, c)| c.clone());
+                if let Some(mut case) = overdue {
+                    let mut out = out.lock().unwrap();
+                    case["impl"] = json!({"panic": format!("the case did not finish within {limit} s (non-termination?)")});
+                    let _ = writeln!(out, "{}", serde_json::to_string(&case).unwrap());
+                    let _ = out.flush();
+                    eprintln!("[harness] case {} did not finish within {limit} s: stopping", case["id"]);
+                    std::process::exit(0);
+                }
+            }
+        });
+    }
+
     for (idx, mut case) in inputs.into_iter().enumerate() {
         if let Some(obj) = case.as_object_mut() {
             obj.remove("impl");
             obj.remove("id");
         }
+        {
+            let mut pending = case.clone();
+            pending["id"] = json!(idx);
+            *current.lock().unwrap() = Some((std::time::Instant::now(), pending));
+        }
         let impl_out = exec_caught(&exec, &case);
+        *current.lock().unwrap() = None;
         case["id"] = json!(idx);
         case["impl"] = impl_out;
-        writeln!(out, "{}", serde_json::to_string(&case).unwrap()).unwrap();
+        writeln!(out.lock().unwrap(), "{}", serde_json::to_string(&case).unwrap()).unwrap();
     }
-    out.flush().unwrap();
+    out.lock().unwrap().flush().unwrap();
 }
 
 /// Runs a closure on a fresh OS thread inside a fresh single-thread rayon pool: the repository's
